@@ -629,6 +629,13 @@ def model_specs(draw, profile=None):
             g.labels.add("data:y-factor")
         if g.coin(p["p_yfactor"] / 2) and not d["timed"]:
             data["myf"][name] = g.pick([0.5, 2.0, 1.1])
+    # the parameter set may interpolate a parameter stepwise ("previous") instead of linearly
+    for name, d in pars.items():
+        if d["db"] and not d["timed"] and not d["deriv"] and name in data["q"] and g.coin(p.get("p_stepped_interpolation", 0.06)):
+            if any(len(e.get("t") or []) >= 2 for e in data["q"][name].values()):
+                for e in data["q"][name].values():
+                    e["m"] = "previous"
+                g.labels.add("data:stepped-interpolation")
     # some parameters are entered as a single "All" row of the databook table (identical data for every population)
     data["all_rows"] = []
     if n_pops >= 2:
